@@ -49,7 +49,14 @@ pub fn tm_from_json(v: &Value) -> Tm {
                 if val > i64::MAX as i128 || val < i64::MIN as i128 { Tm::Bad("int out of range".into()) } else { tm_of_i64(val as i64) }
             } else { norm_int(n(), e()) }
         }
-        "flt" => norm_flt(n(), e(), s()),
+        "flt" => {
+            // a float next to a power of two: n * 2^e + 1 / - 1 (the specification's FltA; an f64 below 2^53)
+            let adj: i128 = match v["s"].as_str().unwrap_or("") { "+1" => 1, "-1" => -1, _ => 0 };
+            if adj != 0 {
+                let val = ((n() as i128) << (e() as u32)) + adj;
+                if val.abs() > (1i128 << 53) { Tm::Bad("float out of range".into()) } else { tm_of_f64(val as f64) }
+            } else { norm_flt(n(), e(), s()) }
+        }
         "ftx" => tm_of_f64(s().parse::<f64>().unwrap_or(f64::NAN)),
         "var" => Tm::Var(n() as usize, s()),
         "anon" => Tm::Anon,
